@@ -2,7 +2,7 @@ import GuppyVerif.Lemmas.C01Bridge
 /-! DFContainer as a store: invariant `Good` relating `locals` to a reference partial value
     (allowing cached struct/tuple wires and moved/stale leaves), preserved by `setitem` on any
     sub-place and by `getitem`, which returns the reference value. -/
-namespace GuppyVerif.Wiring
+namespace GuppyVerif.DFWiring
 
 mutual
 /-- `locals`/`env` agree with the reference partial value `pv` of place `p : t`: defined leaves
@@ -123,11 +123,11 @@ theorem Good.moved {n : Nat} {L : Locals} {env : Env} : ∀ (t : Ty) (p : PlaceI
     Good n L env p t pv → Good n L env p t (moved t pv)
   | .leaf c _, p, pv, h => by
     cases c with
-    | true => simpa [Wiring.moved] using h
-    | false => simp [Wiring.moved, Good]
+    | true => simpa [DFWiring.moved] using h
+    | false => simp [DFWiring.moved, Good]
   | .node k cs, p, .tup ps, h => by
-    simp only [Good, Wiring.moved] at h ⊢
-    refine ⟨fun w v hw hv => h.1 w v hw (total_moved (.node k cs) (.tup ps) v (by simpa [Wiring.moved] using hv)),
+    simp only [Good, DFWiring.moved] at h ⊢
+    refine ⟨fun w v hw hv => h.1 w v hw (total_moved (.node k cs) (.tup ps) v (by simpa [DFWiring.moved] using hv)),
       GoodList.moved cs p 0 ps h.2⟩
   | .node _ _, _, .hole, h => by simp [Good] at h
   | .node _ _, _, .val _, h => by simp [Good] at h
@@ -164,4 +164,4 @@ theorem HoldsList.good {n : Nat} {L : Locals} {env : Env} :
   | _ :: _, _, _, [], h => by simp [HoldsList] at h
 end
 
-end GuppyVerif.Wiring
+end GuppyVerif.DFWiring
